@@ -584,6 +584,13 @@ func (fx *FuncCtx) applyContract(st *State, ct *Contract, names []string, args [
 	} else if resT != nil {
 		post["ret0"] = res
 		post["ret"] = res
+		if callee != nil && callee.Signature.Results().Len() == 1 {
+			if n := callee.Signature.Results().At(0).Name(); n != "" && n != "_" {
+				if _, clash := post[n]; !clash {
+					post[n] = res
+				}
+			}
+		}
 	}
 	envPost := &Env{fx: fx, st: st, old: pre, vars: post, pkg: pkg, errs: &fx.clauseErrs, lets: ct.Lets, recs: recs}
 	for _, c := range ct.Ensures {
@@ -666,6 +673,14 @@ func (fx *FuncCtx) havocLocation(st *State, env *Env, m ast.Expr, text string) {
 			return
 		}
 	case *ast.CallExpr:
+		// fieldof(T, a.b): the field component of every object of type T
+		if id, ok := x.Fun.(*ast.Ident); ok && id.Name == "fieldof" && len(x.Args) == 2 {
+			if c, cs, ok := fx.fieldComp(env, x.Args[0], x.Args[1]); ok {
+				fx.heapGet(st, c, cs)
+				fx.havocComp(st, c)
+				return
+			}
+		}
 		// ghost(x): ghost component at x
 		if id, ok := x.Fun.(*ast.Ident); ok {
 			if g, ok := fx.eng.specs.Ghosts[id.Name]; ok {
@@ -837,6 +852,9 @@ func (fx *FuncCtx) frameCheck(st *State, k int, pos token.Pos) {
 	}
 	sort.Strings(comps)
 	for _, c := range comps {
+		if strings.HasPrefix(c, "RV$") {
+			continue
+		}
 		now := st.Heap[c]
 		was, ok := entry.Heap[c]
 		if !ok {
@@ -902,6 +920,9 @@ func (fx *FuncCtx) modRef(env *Env, m ast.Expr) string {
 		}
 		return base.T
 	case *ast.CallExpr:
+		if id, ok := x.Fun.(*ast.Ident); ok && id.Name == "fieldof" {
+			return "*"
+		}
 		if len(x.Args) > 0 {
 			a := env.eval(x.Args[0])
 			if a.T != "" {
@@ -1090,4 +1111,52 @@ func (fx *FuncCtx) restoreWhen(st, pre *State, cond string) {
 	*st = *m
 	st.R = r
 	st.Defers = defers
+}
+
+// fieldComp resolves fieldof(T, f.g) to a heap component.
+func (fx *FuncCtx) fieldComp(env *Env, tx, fxp ast.Expr) (string, string, bool) {
+	t := env.typeExpr(tx)
+	if t == nil {
+		return "", "", false
+	}
+	var names []string
+	var walk func(e ast.Expr) bool
+	walk = func(e ast.Expr) bool {
+		switch n := e.(type) {
+		case *ast.Ident:
+			names = append(names, n.Name)
+			return true
+		case *ast.SelectorExpr:
+			if !walk(n.X) {
+				return false
+			}
+			names = append(names, n.Sel.Name)
+			return true
+		}
+		return false
+	}
+	if !walk(fxp) {
+		return "", "", false
+	}
+	cur := t
+	var path []int
+	for _, n := range names {
+		st, ok := cur.Underlying().(*types.Struct)
+		if !ok {
+			return "", "", false
+		}
+		found := false
+		for i := 0; i < st.NumFields(); i++ {
+			if st.Field(i).Name() == n {
+				path = append(path, i)
+				cur = st.Field(i).Type()
+				found = true
+				break
+			}
+		}
+		if !found {
+			return "", "", false
+		}
+	}
+	return compName(t, path), "(Array Int " + fx.u.sortOf(cur) + ")", true
 }
